@@ -133,6 +133,10 @@ def _strategy(draw, tier):
         depth = draw(st.sampled_from([0, 1, 1, 2]))
         fd = draw(Z.func_descs(sd, 'grad', depth))
     n = Z.space_dim(sd)
+    if not any(k in fd for k in ('f', 'parts')) and \
+            sd['kind'] in ('tensor', 'discr') and \
+            draw(st.integers(0, 2)) == 0:
+        fd = dict(fd, numgrad=True)
     return {'space': sd, 'func': fd,
             'x': draw(Z.vec(n, Z.nz_values())),
             'd': draw(Z.vec(n)),
@@ -401,13 +405,13 @@ def _check_node(B, pts, top, fd, ctx):
         d = np.ones(n)
     de, df = X(d)
 
+    no_call = any(b.cls == 'moreau' for b in B.nodes())
+
     def value_at(e):
-        if B.cls == 'moreau':
-            return _fval(B.assemble(e))
-        return _fval(f(e))
+        return _fval(B.value(e))
 
     # ---- (3) documented values ---------------------------------------------
-    if B.cls != 'moreau':
+    if not no_call:
         fx = value_at(xe)
         if np.isnan(fx):
             raise Violation(sig('value'), 'f(x) is nan at x={}'.format(
@@ -458,6 +462,11 @@ def _check_node(B, pts, top, fd, ctx):
                             'gradient(x) is not an element of the domain: '
                             '{!r}'.format(getattr(ge, 'space', type(ge))))
         gf = flat.flat(ge, space)
+    if not np.all(np.isfinite(gf)) and not (
+            abs(value_at(xe)) < 1e150):
+        # overflow of the functional itself (e.g. exp of a large inner
+        # point of a composition)
+        return Outcome('trivial', strata=strata + ['trivial:overflow'])
     if not np.all(np.isfinite(gf)):
         raise Violation(sig('grad-fd'),
                         'gradient not finite at an interior point x={}: {}'
@@ -585,8 +594,8 @@ def _check_node(B, pts, top, fd, ctx):
                     pair(b - tt * u, b + tt * u, 'curvature')
 
     # ---- (5) NumericalGradient ----------------------------------------------
-    if top and not B.children and reliable and n <= 6 and not f32 and \
-            sd['kind'] in ('tensor', 'discr') and B.cls != 'moreau':
+    if top and fd.get('numgrad') and not B.children and reliable and \
+            n <= 6 and not f32 and sd['kind'] in ('tensor', 'discr'):
         step = 1e-4 * (1.0 + float(np.max(np.abs(xf))))
         if 0.5 * step < 0.25 * rad:
             NG = S.NumericalGradient(f, method='central', step=step)
